@@ -338,7 +338,7 @@ impl Property for C15 {
     }
     fn plan(&self, tier: Tier) -> Plan {
         Plan {
-            random_cases: tier.pick(5000, 150_000),
+            random_cases: tier.pick(30_000, 600_000),
             tape_len: tier.pick(200, 400),
             watchdog_s: 60,
             worker_recycle: 300,
